@@ -72,7 +72,7 @@ Proof.
 Qed.
 
 Lemma soi_core_case3 ab T : soi_core_x RO 0 0 ab T = (T*T/2, 0).
-Proof. unfold soi_core_x, soi_cases_of, cite. rewrite nz_false. simpl. apply c_eq; simpl; auto. Qed.
+Proof. unfold soi_core_x, soi_cases_of, cite. rewrite nz_false. simpl. apply c_eq; simpl; auto. unfold o2, Rdiv; simpl. ring. Qed.
 
 (* ------------------------------------------------------------------ Part 1: the iterated integral *)
 (* z = int_0^T e^{i a t} ( int_0^t e^{i b t'} dt' ) dt *)
